@@ -42,9 +42,9 @@ import (
 )
 
 type input struct {
-	Name  string
-	Shape string // key component: what kind of document
-	Bytes []byte
+	Name   string
+	Shape  string // key component: what kind of document
+	Bytes  []byte
 	Signed bool // has signatures (fields or /Perms)
 }
 
